@@ -21,7 +21,7 @@ print('| seeded change | round | what it is and what it needs (summary of the au
 print('|---|---|---|---|---|---|---|')
 def fmt(ch):
     return '; '.join('%s -> %s %s' % (p, v['rc'], ' '.join('`%s`' % x for x in str(v.get('signatures', '')).split(',')[:2] if x)) for p, v in ch.items())
-tot = {k: [0, 0, 0, 0] for k in (1, 2, 3, 4, 5, 6, 7)}
+tot = {k: [0, 0, 0, 0] for k in (1, 2, 3, 4, 5, 6, 7, 8)}
 for d in sorted(glob.glob(V + '/seeded/*')):
     m = json.load(open(d + '/meta.json'))
     rnd = m.get('round', 1)
